@@ -15,11 +15,13 @@ package art
 //@ spec firstGe4(w, b) = ite(!ult(lane(w,0),b), 0, ite(!ult(lane(w,1),b), 1, ite(!ult(lane(w,2),b), 2, ite(!ult(lane(w,3),b), 3, -1))))
 
 //@ func searchNode4
+//@   locals bitMask xor1 isMatch
 //@   mode bv
 //@   assigns nothing
 //@   ensures[first_equal_lane] mathint(result) == firstEq4(keys, b)
 
 //@ func insertPosNode4
+//@   locals bitMask t0 t1 t2
 //@   mode bv
 //@   assigns nothing
 //@   ensures[first_lane_ge] mathint(result) == firstGe4(keys, b)
@@ -31,18 +33,21 @@ package art
 //@   ensures[lane] result == lane(keys, pos)
 
 //@ func setAtPos
+//@   locals bitPos
 //@   mode bv
 //@   assigns *keys
 //@   requires 0 <= mathint(pos) && mathint(pos) <= 3
 //@   ensures[lanes] forall(j, 0, 4, lane(*keys, j) == ite(j == mathint(pos), b, lane(old(*keys), j)))
 
 //@ func shiftLeftClear
+//@   locals bitPos mask backup
 //@   mode bv
 //@   assigns *keys
 //@   requires 0 <= mathint(pos) && mathint(pos) <= 3
 //@   ensures[lanes] forall(j, 0, 4, lane(*keys, j) == ite(j < mathint(pos), lane(old(*keys), j), ite(j == mathint(pos), 0, lane(old(*keys), j-1))))
 
 //@ func shiftRightClear
+//@   locals bitPos mask backup
 //@   mode bv
 //@   assigns *keys
 //@   requires 1 <= mathint(pos) && mathint(pos) <= 4
@@ -92,6 +97,7 @@ func first(a, _ []byte) []byte { return a }
 //   roundtrip            : Restore(Transform(x)) == x bit for bit (NaN -> NaN)
 
 //@ func (UnsignedBinaryKey[{uint8}]).Transform
+//@   locals b
 //@   mode bv
 //@   ensures[len] len(result0) == 1 && cap(result0) == 1
 //@   ensures[fresh] fresh(result0)
@@ -102,6 +108,7 @@ func first(a, _ []byte) []byte { return a }
 //@   chain[roundtrip] (UnsignedBinaryKey[$KIND]).Restore(result1) : then == k
 
 //@ func (UnsignedBinaryKey[{uint16}]).Transform
+//@   locals b
 //@   mode bv
 //@   ensures[len] len(result0) == 2 && cap(result0) == 2
 //@   ensures[fresh] fresh(result0)
@@ -112,6 +119,7 @@ func first(a, _ []byte) []byte { return a }
 //@   chain[roundtrip] (UnsignedBinaryKey[$KIND]).Restore(result1) : then == k
 
 //@ func (UnsignedBinaryKey[{uint32}]).Transform
+//@   locals b
 //@   mode bv
 //@   ensures[len] len(result0) == 4 && cap(result0) == 4
 //@   ensures[fresh] fresh(result0)
@@ -122,6 +130,7 @@ func first(a, _ []byte) []byte { return a }
 //@   chain[roundtrip] (UnsignedBinaryKey[$KIND]).Restore(result1) : then == k
 
 //@ func (UnsignedBinaryKey[{uint64,uint}]).Transform
+//@   locals b
 //@   mode bv
 //@   ensures[len] len(result0) == 8 && cap(result0) == 8
 //@   ensures[fresh] fresh(result0)
@@ -132,6 +141,7 @@ func first(a, _ []byte) []byte { return a }
 //@   chain[roundtrip] (UnsignedBinaryKey[$KIND]).Restore(result1) : then == k
 
 //@ func (SignedBinaryKey[{int8}]).Transform
+//@   locals b
 //@   mode bv
 //@   ensures[len] len(result0) == 1 && cap(result0) == 1
 //@   ensures[fresh] fresh(result0)
@@ -142,6 +152,7 @@ func first(a, _ []byte) []byte { return a }
 //@   chain[roundtrip] (SignedBinaryKey[$KIND]).Restore(result1) : then == k
 
 //@ func (SignedBinaryKey[{int16}]).Transform
+//@   locals b
 //@   mode bv
 //@   ensures[len] len(result0) == 2 && cap(result0) == 2
 //@   ensures[fresh] fresh(result0)
@@ -152,6 +163,7 @@ func first(a, _ []byte) []byte { return a }
 //@   chain[roundtrip] (SignedBinaryKey[$KIND]).Restore(result1) : then == k
 
 //@ func (SignedBinaryKey[{int32}]).Transform
+//@   locals b
 //@   mode bv
 //@   ensures[len] len(result0) == 4 && cap(result0) == 4
 //@   ensures[fresh] fresh(result0)
@@ -162,6 +174,7 @@ func first(a, _ []byte) []byte { return a }
 //@   chain[roundtrip] (SignedBinaryKey[$KIND]).Restore(result1) : then == k
 
 //@ func (SignedBinaryKey[{int64,int}]).Transform
+//@   locals b
 //@   mode bv
 //@   ensures[len] len(result0) == 8 && cap(result0) == 8
 //@   ensures[fresh] fresh(result0)
@@ -176,6 +189,7 @@ func first(a, _ []byte) []byte { return a }
 //@ spec fsame(x, y) = bits(x) == bits(y) || (isNaN(x) && isNaN(y))
 
 //@ func (FloatBinaryKey[{float32}]).Transform
+//@   locals b i f64 t mask mask2
 //@   mode bv
 //@   ensures[len] len(result0) == 4 && cap(result0) == 4
 //@   ensures[fresh] fresh(result0)
@@ -186,6 +200,7 @@ func first(a, _ []byte) []byte { return a }
 //@   chain[roundtrip] (FloatBinaryKey[$KIND]).Restore(result1) : fsame(then, k)
 
 //@ func (FloatBinaryKey[{float64}]).Transform
+//@   locals b i f64 t mask mask2
 //@   mode bv
 //@   ensures[len] len(result0) == 8 && cap(result0) == 8
 //@   ensures[fresh] fresh(result0)
@@ -315,6 +330,7 @@ func first(a, _ []byte) []byte { return a }
 //@   ensures[frame] frame(n256)
 
 //@ func (*nodeRef).findChild
+//@   locals n4 i n16 idx n48 n256
 //@   requires typeOK(*ref) && InvRef(*ref)
 //@   ensures[absent_iff_nil] (result == nil) == (lookP(*ref, b) == nil)
 //@   ensures[slot_holds_child] implies(result != nil, (*result).pointer == lookP(*ref, b) && (*result).tag == lookT(*ref, b) && result.obj == (*ref).pointer)
@@ -342,6 +358,7 @@ func first(a, _ []byte) []byte { return a }
 //@   assigns SP ST node.childrenLen
 
 //@ func (*node48).addChild
+//@   locals pos n256 i
 //@   assigns SP ST B node.prefixLen node.childrenLen node4.keys pooled
 //@   ensures[allocs_nodes_only] forallref(o, implies(fresh(o), isNodeT(o) || atype(o) == 1000))
 //@   ensures[bytes_untouched] forallref(o, implies(old(allocated(o)) && o != nil && atype(o) == 1000, sameObjExcept(o)))
@@ -367,6 +384,7 @@ func first(a, _ []byte) []byte { return a }
 //@     decreases 256 - i
 
 //@ func (*node16).addChild
+//@   locals idx loLimit n48 i
 //@   assigns SP ST B node.prefixLen node.childrenLen node4.keys pooled
 //@   ensures[allocs_nodes_only] forallref(o, implies(fresh(o), isNodeT(o) || atype(o) == 1000))
 //@   ensures[bytes_untouched] forallref(o, implies(old(allocated(o)) && o != nil && atype(o) == 1000, sameObjExcept(o)))
@@ -389,6 +407,7 @@ func first(a, _ []byte) []byte { return a }
 //@     decreases 16 - i
 
 //@ func (*node4).addChild
+//@   locals idx i loLimit n16
 //@   assigns SP ST B node.prefixLen node.childrenLen node4.keys pooled
 //@   ensures[allocs_nodes_only] forallref(o, implies(fresh(o), isNodeT(o) || atype(o) == 1000))
 //@   ensures[bytes_untouched] forallref(o, implies(old(allocated(o)) && o != nil && atype(o) == 1000, sameObjExcept(o)))
@@ -406,6 +425,7 @@ func first(a, _ []byte) []byte { return a }
 //@ spec slotOK(ptr) = ptr.obj != (*ptr).pointer && allocated(ptr.obj) && ptr.obj != nil && atype(ptr.obj) != 1000 && inT((*ptr).pointer) && !pooled((*ptr).pointer)
 
 //@ func (*nodeRef).addChild
+//@   locals n4 n16 n48 n256
 //@   assigns SP ST B node.prefixLen node.childrenLen node4.keys pooled
 //@   ensures[allocs_nodes_only] forallref(o, implies(fresh(o), isNodeT(o) || atype(o) == 1000))
 //@   ensures[bytes_untouched] forallref(o, implies(old(allocated(o)) && o != nil && atype(o) == 1000, sameObjExcept(o)))
@@ -425,6 +445,7 @@ func first(a, _ []byte) []byte { return a }
 // results must satisfy its invariant and present the same table.
 
 //@ func (*node256).deleteChild
+//@   locals n48 pos i
 //@   assigns SP ST B node.prefixLen node.childrenLen node4.keys pooled
 //@   ensures[allocs_nodes_only] forallref(o, implies(fresh(o), isNodeT(o) || atype(o) == 1000))
 //@   ensures[bytes_untouched] forallref(o, implies(old(allocated(o)) && o != nil && atype(o) == 1000, sameObjExcept(o)))
@@ -454,6 +475,7 @@ func first(a, _ []byte) []byte { return a }
 //@     decreases 256 - i
 
 //@ func (*node48).deleteChild
+//@   locals pos n16 children i
 //@   assigns SP ST B node.prefixLen node.childrenLen node4.keys pooled
 //@   ensures[allocs_nodes_only] forallref(o, implies(fresh(o), isNodeT(o) || atype(o) == 1000))
 //@   ensures[bytes_untouched] forallref(o, implies(old(allocated(o)) && o != nil && atype(o) == 1000, sameObjExcept(o)))
@@ -482,6 +504,7 @@ func first(a, _ []byte) []byte { return a }
 //@     decreases 256 - i
 
 //@ func (*node16).deleteChild
+//@   locals pos n4
 //@   assigns SP ST B node.prefixLen node.childrenLen node4.keys pooled
 //@   ensures[allocs_nodes_only] forallref(o, implies(fresh(o), isNodeT(o) || atype(o) == 1000))
 //@   ensures[bytes_untouched] forallref(o, implies(old(allocated(o)) && o != nil && atype(o) == 1000, sameObjExcept(o)))
@@ -504,6 +527,7 @@ func first(a, _ []byte) []byte { return a }
 //@ spec innerChildOK(n, c, ref) = c.pointer != nil && c.pointer != n && c.pointer != ref.obj && allocated(c.pointer) && as(node, c.pointer).prefixLen + n.prefixLen + 1 < 4294967296
 
 //@ func (*node4).deleteChild
+//@   locals i child prefix childNode subPrefix hiLimit
 //@   assigns SP ST B node.prefixLen node.childrenLen node4.keys pooled
 //@   ensures[allocs_nodes_only] forallref(o, implies(fresh(o), isNodeT(o) || atype(o) == 1000))
 //@   ensures[bytes_untouched] forallref(o, implies(old(allocated(o)) && o != nil && atype(o) == 1000, sameObjExcept(o)))
@@ -532,6 +556,7 @@ func first(a, _ []byte) []byte { return a }
 //@ spec isMerge(r) = r.tag == 0 && as(node4, r.pointer).childrenLen == 2
 
 //@ func (*nodeRef).deleteChild
+//@   locals n4 n16 n48 n256
 //@   assigns SP ST B node.prefixLen node.childrenLen node4.keys pooled
 //@   ensures[allocs_nodes_only] forallref(o, implies(fresh(o), isNodeT(o) || atype(o) == 1000))
 //@   ensures[bytes_untouched] forallref(o, implies(old(allocated(o)) && o != nil && atype(o) == 1000, sameObjExcept(o)))
@@ -566,6 +591,7 @@ func first(a, _ []byte) []byte { return a }
 // and every leaf owns a key of the recorded length inside one byte object.
 
 //@ func (*node).checkPrefix
+//@   locals maxCmp idx
 //@   requires n != nil && 0 <= depth && depth <= len(key)
 //@   ensures[bound] 0 <= result && result <= 10 && result <= n.prefixLen && result <= len(key) - depth
 //@   ensures[agree] forall(i, 0, 10, implies(i < result, n.prefix[i] == key[depth+i]))
@@ -576,6 +602,7 @@ func first(a, _ []byte) []byte { return a }
 //@     decreases maxCmp - idx
 
 //@ func longestCommonPrefix
+//@   locals maxCmp idx
 //@   requires 0 <= depth
 //@   ensures[bound] 0 <= result && implies(depth <= min(len(key), len(other)), depth + result <= min(len(key), len(other))) && implies(depth > min(len(key), len(other)), result == 0)
 //@   ensures[agree] forall(i, depth, depth + result, key[i] == other[i])
@@ -607,6 +634,7 @@ func first(a, _ []byte) []byte { return a }
 //@ func (*{alpha,unsigned,signed,float,compound}LeafNode[V]).getTransformKey
 //@   inline
 //@ func (AlphabeticalOrderKey[K]).Transform
+//@   locals b
 //@   inline
 //@ func (AlphabeticalOrderKey[K]).Restore
 //@   inline
@@ -616,6 +644,7 @@ func first(a, _ []byte) []byte { return a }
 // the twelve instantiations (C07); the generic body itself (a type switch on K) is not
 // executed symbolically.
 //@ func ({Unsigned,Signed,Float}BinaryKey[K]).Transform
+//@   locals b
 //@   ensures[fresh] fresh(result0) && result1.obj == result0.obj && result1.off == result0.off && result1.len == result0.len && result1.cap == result0.cap
 //@   ensures[len] 1 <= len(result0) && len(result0) <= 8 && cap(result0) == len(result0)
 //@   ensures[owned] atype(result0.obj) == 1000
@@ -623,10 +652,12 @@ func first(a, _ []byte) []byte { return a }
 //@   ensures[allocs_bytes_only] forallref(o, implies(allocated(o) && !old(allocated(o)), atype(o) == 1000))
 //@   assigns B
 //@ func ({Unsigned,Signed,Float}BinaryKey[K]).Restore
+//@   locals k
 //@   requires 1 <= len(b)
 //@   assigns nothing
 
 //@ func (*alphaSortedTree[K,V]).Search
+//@   locals keyS notFound n depth node prefixLen b n4 i n16 idx n48 n256 leaf
 //@   opt bind K=[]byte
 //@   opt kind alpha
 //@   opt casts on
@@ -641,6 +672,7 @@ func first(a, _ []byte) []byte { return a }
 //@     decreases len(keyS) - depth
 
 //@ func (*{unsigned,signed,float,compound}SortedTree[K,V]).Search
+//@   locals keyS notFound n depth node prefixLen b n4 i n16 idx n48 n256 leaf
 //@   opt kind $KIND
 //@   opt casts on
 //@   opt extent on
@@ -658,6 +690,7 @@ func first(a, _ []byte) []byte { return a }
 //@   ensures[pure] frame()
 
 //@ func (*alphaSortedTree[K,V]).Delete
+//@   locals keyS ref n depth leaf node prefixLen child
 //@   opt bind K=[]byte
 //@   opt kind alpha
 //@   opt casts on
@@ -682,6 +715,7 @@ func first(a, _ []byte) []byte { return a }
 //@     decreases len(keyS) - depth
 
 //@ func (*{unsigned,signed,float,compound}SortedTree[K,V]).Delete
+//@   locals keyS ref n depth leaf node prefixLen child
 //@   opt kind $KIND
 //@   pathkey ret
 //@   opt casts on
@@ -716,6 +750,7 @@ func first(a, _ []byte) []byte { return a }
 //@ spec liveRef(r) = r.pointer == nil || (okRef(r) && liveChild(r))
 
 //@ func minimum
+//@   locals kind n4 n16 idx n48 n256
 //@   requires liveRef(ref)
 //@   requires HeapOKN() && LinkedLive()
 //@   ensures[nil_iff_empty] (result == nil) == (ref.pointer == nil)
@@ -731,6 +766,7 @@ func first(a, _ []byte) []byte { return a }
 //@     decreases 256 - idx
 
 //@ func maximum
+//@   locals kind n4 n16 idx n48 n256
 //@   requires liveRef(ref)
 //@   requires HeapOKN() && LinkedLive()
 //@   ensures[nil_iff_empty] (result == nil) == (ref.pointer == nil)
@@ -749,6 +785,7 @@ func first(a, _ []byte) []byte { return a }
 // when the path is longer than the 10 inline bytes the comparison continues in the
 // minimum leaf below n. Rung 1: bounds and purity only. One contract variant per leaf type.
 //@ func prefixMismatch@{alpha,unsigned,signed,float,compound}
+//@   locals node maxCmp idx leaf leafKey realIdx
 //@   opt leaf $KINDLeafNode
 //@   opt kind $KIND
 //@   opt casts on
@@ -766,6 +803,7 @@ func first(a, _ []byte) []byte { return a }
 //@     decreases maxCmp - idx
 
 //@ func (*alphaSortedTree[K,V]).Insert
+//@   locals keyS createLeaf ref n depth node prefixDiff newNode loLimit leafMin leafKey leafRef child nl longestPrefix splitPrefix
 //@   opt bind K=[]byte
 //@   opt kind alpha
 //@   opt casts on
@@ -786,6 +824,7 @@ func first(a, _ []byte) []byte { return a }
 //@     invariant slotOf(ref, t) && ref.obj != n.pointer
 
 //@ func (*{unsigned,signed,float,compound}SortedTree[K,V]).Insert
+//@   locals keyS createLeaf ref n depth node prefixDiff newNode loLimit leafMin leafKey leafRef child nl longestPrefix splitPrefix
 //@   opt kind $KIND
 //@   opt casts on
 //@   opt extent on
@@ -816,6 +855,7 @@ func first(a, _ []byte) []byte { return a }
 //   scratch_bounded: afterwards the buffer holds this key's sort key and nothing else: what the
 //                    codec retains is bounded by the last key, not by the number of calls (C17)
 //@ func (*CollationOrderKey[K]).Transform
+//@   locals b
 //@   opt bind K=string
 //@   requires cok != nil && cok.buf != nil && cok.c != nil
 //@   ensures[fresh] fresh(result0) && fresh(result1) && result0.obj != result1.obj && result0.off == 0 && result1.off == 0 && cap(result0) == len(result0) && cap(result1) == len(result1)
@@ -836,6 +876,7 @@ func first(a, _ []byte) []byte { return a }
 //@ spec WF1in_collation(t) = WF1_collation(t) && LinkedLive() && rootLive(t.root)
 
 //@ func (*collationSortedTree[K,V]).Search
+//@   locals keyS colKey notFound n depth leaf node prefixLen b n4 i n16 idx n48 n256
 //@   opt kind collation
 //@   opt casts on
 //@   opt extent on
@@ -854,6 +895,7 @@ func first(a, _ []byte) []byte { return a }
 //@   ensures[pure] frame()
 
 //@ func (*collationSortedTree[K,V]).Delete
+//@   locals keyS colKey ref n depth leaf node prefixLen child
 //@   opt kind collation
 //@   opt casts on
 //@   opt extent on
@@ -876,6 +918,7 @@ func first(a, _ []byte) []byte { return a }
 //@     decreases len(colKey) - depth
 
 //@ func prefixMismatch@collation
+//@   locals node maxCmp idx leaf leafKey realIdx
 //@   opt leaf collateLeafNode
 //@   opt kind collation
 //@   opt casts on
@@ -893,6 +936,7 @@ func first(a, _ []byte) []byte { return a }
 //@     decreases maxCmp - idx
 
 //@ func (*collationSortedTree[K,V]).Insert
+//@   locals keyS colKey createLeaf ref n depth nl leafKey newNode longestPrefix splitPrefix leafRef node prefixDiff loLimit leafMin child
 //@   opt kind collation
 //@   opt casts on
 //@   opt extent on
@@ -919,6 +963,7 @@ func first(a, _ []byte) []byte { return a }
 //@ spec stackOK(q) = forall(j, 0, len(q), q[j].pointer != nil && okRef(q[j]) && liveChild(q[j]))
 
 //@ func all$1
+//@   locals q n k v n4 i n16 n48 idx n256
 //@   opt casts on
 //@   requires liveRef(root) && HeapOKN() && LinkedLive()
 //@   ensures[pure] frame()
@@ -934,6 +979,7 @@ func first(a, _ []byte) []byte { return a }
 //@     invariant stackOK(q) && 0 - 1 <= i && i <= 255
 
 //@ func backward$1
+//@   locals q n k v n4 i n16 n48 idx n256
 //@   opt casts on
 //@   requires liveRef(root) && HeapOKN() && LinkedLive()
 //@   ensures[pure] frame()
@@ -949,6 +995,7 @@ func first(a, _ []byte) []byte { return a }
 //@     invariant stackOK(q) && 0 <= i && i <= 256
 
 //@ func filter$1
+//@   locals q n k v n4 i n16 n48 idx n256
 //@   opt casts on
 //@   requires liveRef(root) && HeapOKN() && LinkedLive()
 //@   ensures[pure] frame()
@@ -966,6 +1013,7 @@ func first(a, _ []byte) []byte { return a }
 // lowestCommonParent: byte-directed descent. Rung 1: safety, purity, and the result is a
 // live well-typed reference of the tree (what filter requires).
 //@ func lowestCommonParent@alpha
+//@   locals n depth node child
 //@   opt kind alpha
 //@   opt leaf alphaLeafNode
 //@   opt casts on
@@ -978,6 +1026,7 @@ func first(a, _ []byte) []byte { return a }
 //@     decreases len(prefix) - depth
 
 //@ func lowestCommonParent@collation
+//@   locals n depth node child
 //@   opt kind collation
 //@   opt leaf collateLeafNode
 //@   opt casts on
@@ -996,6 +1045,7 @@ func first(a, _ []byte) []byte { return a }
 // prefixLen + 1 cannot be bounded (its overflow obligation is generated, not claimed).
 //@ spec stacksOK(q, depths) = stackOK(q) && len(depths) == len(q) && forall(j, 0, len(depths), 0 <= depths[j])
 //@ func rangeScan$1@alpha
+//@   locals q depths n depth leaf k v node nodeKey idx childDepth n4 i n16 n48 n256
 //@   opt kind alpha
 //@   opt leaf alphaLeafNode
 //@   opt casts on
@@ -1019,6 +1069,7 @@ func first(a, _ []byte) []byte { return a }
 // The signed and float trees instantiate rangeScan with *unsignedLeafNode as well: the cast is
 // justified by the identical field lists of the generated leaf structs (one layout class).
 //@ func rangeScan$1@{unsigned,signed,float}
+//@   locals q depths n depth leaf k v node nodeKey idx childDepth n4 i n16 n48 n256
 //@   opt kind $KIND
 //@   opt leaf unsignedLeafNode
 //@   opt casts on
@@ -1038,6 +1089,7 @@ func first(a, _ []byte) []byte { return a }
 //@     invariant stacksOK(q, depths) && 0 - 1 <= i && i <= 255
 
 //@ func rangeScan$1@compound
+//@   locals q depths n depth leaf k v node nodeKey idx childDepth n4 i n16 n48 n256
 //@   opt kind compound
 //@   opt leaf compoundLeafNode
 //@   opt casts on
@@ -1057,6 +1109,7 @@ func first(a, _ []byte) []byte { return a }
 //@     invariant stacksOK(q, depths) && 0 - 1 <= i && i <= 255
 
 //@ func rangeScan$1@collation
+//@   locals q depths n depth leaf k v node nodeKey idx childDepth n4 i n16 n48 n256
 //@   opt kind collation
 //@   opt leaf collateLeafNode
 //@   opt casts on
@@ -1080,6 +1133,7 @@ func first(a, _ []byte) []byte { return a }
 // Thin public wrappers (rung 1: safety and purity).
 
 //@ func (*alphaSortedTree[K,V]).restoreKey
+//@   locals l keyS
 //@   opt kind alpha
 //@   opt bind K=[]byte
 //@   opt casts on
@@ -1090,6 +1144,7 @@ func first(a, _ []byte) []byte { return a }
 //@   assigns nothing
 
 //@ func (*{unsigned,signed,float,compound}SortedTree[K,V]).restoreKey
+//@   locals l keyS
 //@   opt kind $KIND
 //@   opt casts on
 //@   opt extent on
@@ -1099,6 +1154,7 @@ func first(a, _ []byte) []byte { return a }
 //@   assigns B
 
 //@ func (*collationSortedTree[K,V]).restoreKey
+//@   locals l
 //@   opt kind collation
 //@   opt bind K=string
 //@   opt casts on
@@ -1109,6 +1165,7 @@ func first(a, _ []byte) []byte { return a }
 //@   assigns B
 
 //@ func (*{alpha,unsigned,signed,float,compound,collation}SortedTree[K,V]).Minimum
+//@   locals l k v notFoundKey notFoundValue
 //@   opt kind $KIND
 //@   opt casts on
 //@   opt extent on
@@ -1117,6 +1174,7 @@ func first(a, _ []byte) []byte { return a }
 //@   ensures[none_iff_empty] result2 == (old(t.root.pointer) != nil)
 
 //@ func (*{alpha,unsigned,signed,float,compound,collation}SortedTree[K,V]).Maximum
+//@   locals l k v notFoundKey notFoundValue
 //@   opt kind $KIND
 //@   opt casts on
 //@   opt extent on
@@ -1134,6 +1192,7 @@ func first(a, _ []byte) []byte { return a }
 //@ func filter
 //@   inline
 //@ func rangeScan
+//@   locals idx search
 //@   inline
 
 //@ func (*{alpha,unsigned,signed,float,compound,collation}SortedTree[K,V]).All
@@ -1149,6 +1208,7 @@ func first(a, _ []byte) []byte { return a }
 //@   assigns nothing
 
 //@ func (*alphaSortedTree[K,V]).Prefix
+//@   locals root hasPrefix
 //@   opt bind K=[]byte
 //@   opt kind alpha
 //@   opt casts on
@@ -1158,6 +1218,7 @@ func first(a, _ []byte) []byte { return a }
 //@   ensures[arg_bytes_unchanged] sameBytes(p, 0, blen(p.obj))
 
 //@ func (*alphaSortedTree[K,V]).Range
+//@   locals startKey endKey
 //@   opt bind K=[]byte
 //@   opt kind alpha
 //@   opt casts on
@@ -1169,6 +1230,7 @@ func first(a, _ []byte) []byte { return a }
 //@   ensures[arg_bytes_unchanged] sameBytes(start0, 0, blen(start0.obj)) && sameBytes(end0, 0, blen(end0.obj))
 
 //@ func (*collationSortedTree[K,V]).Prefix
+//@   locals keyS colKey i root hasPrefix
 //@   opt bind K=string
 //@   opt kind collation
 //@   opt casts on
@@ -1178,6 +1240,7 @@ func first(a, _ []byte) []byte { return a }
 //@   ensures[pure] frameExcept("collationSortedTree.cok.src", "CollationOrderKey.src")
 
 //@ func (*collationSortedTree[K,V]).Range
+//@   locals startKey startColKey endKey endColKey
 //@   opt bind K=string
 //@   opt kind collation
 //@   opt casts on
@@ -1187,6 +1250,7 @@ func first(a, _ []byte) []byte { return a }
 //@   ensures[pure] frameExcept("collationSortedTree.cok.src", "CollationOrderKey.src")
 
 //@ func (*{unsigned,signed,float}SortedTree[K,V]).Range
+//@   locals startKey endKey
 //@   opt kind $KIND
 //@   opt casts on
 //@   opt extent on
@@ -1195,6 +1259,7 @@ func first(a, _ []byte) []byte { return a }
 
 // the single-key sequence returned for start == end
 //@ func (*{unsigned,signed,float}SortedTree[K,V]).Range$2
+//@   locals val ok
 //@   opt kind $KIND
 //@   opt casts on
 //@   opt extent on
@@ -1202,6 +1267,7 @@ func first(a, _ []byte) []byte { return a }
 //@   ensures[pure] frame()
 
 //@ func (*compoundSortedTree[K,V]).Range
+//@   locals startKey endKey
 //@   opt kind compound
 //@   opt casts on
 //@   opt extent on
@@ -1224,6 +1290,7 @@ func first(a, _ []byte) []byte { return a }
 //@   ensures[stop_propagates] implies(stopped(), !result)
 
 //@ func {topK,bottomK}$1
+//@   locals remaining key val
 //@   requires true
 //@   ensures[pure] frame()
 
